@@ -251,10 +251,22 @@ class SV:
         self.k = k
 
     # -- helpers -----------------------------------------------------------------------
+    @property
+    def dtype(self):
+        """numpy scalars carry a dtype (result.dtype on a reduction result)"""
+        from .stubs import np as _snp
+
+        return self.dt if self.dt is not None else _snp._scalar_dtype(self)
+
     @staticmethod
     def lift(x):
         if isinstance(x, SV):
             return x
+        f = getattr(x, "_pyvc_scalar", None)
+        if f is not None:
+            v = f()
+            if v is not None:
+                return SV.lift(v)
         if isinstance(x, bool):
             return SV(z3.BoolVal(x), "b")
         if isinstance(x, int):
@@ -635,6 +647,9 @@ def term(x):
 
 
 def bterm(x):
+    f = getattr(x, "_pyvc_scalar", None)
+    if f is not None and f() is not None:
+        x = f()
     if isinstance(x, bool):
         return z3.BoolVal(x)
     if isinstance(x, SV):
